@@ -22,6 +22,17 @@ def stages(tier, rng, only=None):
     out.append(ac.stage("random", PID, lambda: ac.cases([ac.random_dataset(rng, 8, 6) for _ in range(n_rand)],
                                                         ["Copeland"], ac.PRESET + ac.grid_sample(rng, 12),
                                                         namings=["ints", "letters", "digits"]), _nt))
+    out.append(ac.stage("microscopic_penalties", PID, lambda: ac.scaled_cases(
+        grids.datasets(3, 2)[::3] + [ac.random_dataset(rng, 6, 5) for _ in range(n_rand // 4)], ["Copeland"], ac.PRESET,
+        40, namings=("ints", "letters")), _nt))
+
+    def then_other():
+        cs = ac.reuse_other_cases(grids.datasets(3, 2)[::2] + [ac.random_dataset(rng, 6, 5) for _ in range(n_rand // 4)],
+                                  ["Copeland"], ac.PRESET, rng)
+        for c in cs:
+            c["reuse"]["kind"] = "then_other" if c["kseed"] % 2 else "other"
+        return cs
+    out.append(ac.stage("reuse_other_dataset", PID, then_other, _nt))
     if tier == "thorough":
         sch = ac.PRESET + ac.grid_sample(rng, 14)
         out.append(ac.stage("grid3x3", PID, lambda: ac.cases(grids.datasets(3, 3), ["Copeland"], sch, flags=(1,)), _nt))
